@@ -34,6 +34,19 @@ pub fn lattice(lo: i128, hi: i128, bits: u32) -> Vec<i128> {
         }
         p *= 10;
     }
+    // multiplicative alias classes: x such that m*x wraps around 2^31 / 2^32 / 2^63 / 2^64 into a small value, for the
+    // unit factors that occur in the code (7 days, 12 months, 60, 100, 365, 1000, 3600, 86400, 10^6, 10^9)
+    for m in [7i128, 12, 60, 100, 365, 1000, 3600, 86400, 1_000_000, 1_000_000_000] {
+        for w in [1i128 << 31, 1 << 32, 1 << 63, 1 << 64] {
+            for k in [1i128, 2, 3] {
+                let q = k * w / m;
+                for j in [0i128, 1, 2] {
+                    v.push(q + j);
+                    v.push(-(q + j));
+                }
+            }
+        }
+    }
     v.retain(|x| *x >= lo && *x <= hi);
     dedup_sorted(v)
 }
